@@ -243,6 +243,9 @@ func runC17Free(c C17Case) (st Stats, err error) {
 	if c.RO {
 		st.Class("free-read-only")
 	}
+	if c.Root.IsCond() && c.Root.Expr != nil && c.Root.Expr.IsStack() && c.Root.Expr.ReadOnly && !c.RO {
+		st.Class("free-cond-holding-read-only-stack")
+	}
 	st.NonTrivial = true
 	return st, nil
 }
@@ -375,9 +378,15 @@ func genC17(t *rapid.T, tier Tier) C17Case {
 		var root Node
 		if rapid.Bool().Draw(t, "cond") {
 			g := c17ResetGen
+			g.CondExprStack = true
 			st := &treeState{g: &g, budget: 6}
 			root = st.cond(t, 1)
 			root.Wrap = WrapNative
+			if root.Expr != nil && root.Expr.IsStack() {
+				// the expression's own read-only flag is no business of the Condition's Free
+				root.Expr.ReadOnly = rapid.Bool().Draw(t, "expr-readonly")
+				root.Expr.Wrap = rapid.SampledFrom([]int{WrapNative, WrapAlias, WrapPtr}).Draw(t, "expr-wrap")
+			}
 		} else {
 			root = c17ResetGen.Draw(t)
 		}
@@ -411,7 +420,7 @@ func init() {
 		Run:      runC17,
 		Enum:     enumC17,
 		EnumNote: "all reflected methods x 8 variants x 6 receiver states, all package-level functions x 24 variants",
-		Floors:   map[string]float64{"reset-with-nil": 0.05, "free-read-only": 0.02, "pkgfunc": 0.03, "state:freed-stack": 0.05, "state:nil-aux": 0.03, "initialising-call": 0.005},
+		Floors:   map[string]float64{"reset-with-nil": 0.05, "free-read-only": 0.02, "pkgfunc": 0.03, "state:freed-stack": 0.05, "state:nil-aux": 0.03, "initialising-call": 0.005, "free-cond-holding-read-only-stack": 0.002},
 		Assumptions: []string{"string results may be empty or a documented placeholder; Is* predicates (IsZero, IsEmpty, IsPadded) are not asserted on inert receivers", "package-level default loggers/levels are restored after each package-function call"},
 	})
 }
